@@ -88,6 +88,9 @@ def fd_check(prob, comp, inputs, outputs, J):
     def outs():
         return np.concatenate([np.asarray(prob.get_val(o), dtype=float).ravel() for o in outputs])
     rec = {"comp": type(comp).__name__, "errs": {}, "worst": 0.0}
+    # partials the component itself declares as forward finite differences are only as accurate as that approximation
+    if "fd" in getattr(comp, "_approx_schemes", {}):
+        rec["fd_kind"] = True
     blocks = {}
     noises = {}
     eps = 2.0 ** -52
